@@ -247,10 +247,17 @@ impl AsyncCopiaSync {
             match op {
                 DeltaOp::Copy { offset, len } => {
                     basis.seek(std::io::SeekFrom::Start(*offset)).await?;
-                    let mut buffer = vec![0u8; *len as usize];
-                    basis.read_exact(&mut buffer).await?;
-                    output.write_all(&buffer).await?;
-                    hasher.update(&buffer);
+                    // Copy in bounded pieces: `len` comes from the delta (untrusted,
+                    // up to 4 GiB) and must not size a single allocation.
+                    let mut remaining = *len as usize;
+                    let mut buffer = vec![0u8; remaining.min(self.config.buffer_size.max(1))];
+                    while remaining > 0 {
+                        let n = remaining.min(buffer.len());
+                        basis.read_exact(&mut buffer[..n]).await?;
+                        output.write_all(&buffer[..n]).await?;
+                        hasher.update(&buffer[..n]);
+                        remaining -= n;
+                    }
                 }
                 DeltaOp::Literal(data) => {
                     output.write_all(data).await?;
